@@ -18,7 +18,7 @@ const T5: [u8; 20] = [5u8; 20];
 const T6: [u8; 20] = [6u8; 20];
 
 pub(crate) fn new_core(server_mode: bool, bootstrap: Vec<SocketAddrV4>) -> Core {
-    let secrets: [u8; 40] = kani::any();
+    let secrets: [u8; 40] = kani::env();
     rnd::preload(&secrets);
     Core::new(
         Id::from(ME),
@@ -291,7 +291,7 @@ fn c18_o5a_address_vote() {
 fn c18_o5b_self_ping() {
     clock::set(0);
     let mut core = new_core(false, vec![]);
-    let rnd21: [u8; 21] = kani::any();
+    let rnd21: [u8; 21] = kani::env();
     rnd::preload(&rnd21);
     let public: bool = kani::any();
     let me = if public { SocketAddrV4::new([8, 8, 8, 8].into(), 6881) } else { SocketAddrV4::new([10, 0, 0, 1].into(), 6881) };
